@@ -91,6 +91,73 @@ def traced_count(case, k, marks=None):
     return E, intr, tr
 
 
+class CliTracer(Tracer):
+    "counts line events only once Election.count() has been entered (main() parses and constructs first)"
+
+    def __init__(self, k):
+        Tracer.__init__(self, k)
+        self.armed = False
+
+    def glob(self, frame, event, arg):
+        fn = frame.f_code.co_filename
+        if not self.armed and frame.f_code.co_name == 'count' and fn.endswith('election.py') and fn.startswith(_DROOP):
+            self.armed = True
+        if self.armed and fn.startswith(_DROOP):
+            return self.local
+        return None
+
+
+def cli_interrupted(case, k):
+    "the same interrupt delivered through the command-line driver Droop.main(), which is what catches it in real use"
+    import tempfile
+    import Droop
+    from droop.election import Election
+    fd, path = tempfile.mkstemp(prefix='c19-', suffix='.blt')
+    saved = Election.__dict__['prog']
+    try:
+        with os.fdopen(fd, 'w', encoding='utf-8') as f:
+            f.write(model.render(case))
+        opts = dict(case.get('options') or {})
+        opts.update(path=path, rule=case['rule'], dump=True, json=True)
+        Election.prog = staticmethod(lambda msg: None)
+        tr = CliTracer(k)
+        sys.settrace(tr.glob)
+        try:
+            out = Droop.main(opts)
+        finally:
+            sys.settrace(None)
+        return out, tr
+    finally:
+        Election.prog = saved
+        os.unlink(path)
+
+
+def check_cli(res, case, k, full, base):
+    try:
+        out, tr = cli_interrupted(case, k)
+    except KeyboardInterrupt:
+        res.fail('cli', 'cli|interrupt-escapes|' + base, 'Droop.main lets the interrupt at line event %d escape' % k)
+        return
+    except Exception as e:      # pylint: disable=broad-except
+        res.fail('cli', 'cli|raises|%s|%s' % (base, exc_sig(e)), 'Droop.main raises %r after an interrupt at line event %d' % (e, k))
+        return
+    if tr.where is None:
+        return      # the count finished before event k (cannot happen for k <= total)
+    if 'terminated prematurely' not in out or out.count(MARK) != 3:
+        res.fail('cli', 'cli|marker|' + base, 'Droop.main output after an interrupt at %s: banner %s, marker x%d (expected once each in report, dump, JSON)' %
+                 (tr.where, 'terminated prematurely' in out, out.count(MARK)))
+        return
+    i = out.find('\n{\n')
+    try:
+        js = json.loads(out[i + 1:])
+    except ValueError as e:
+        res.fail('cli', 'cli|json-invalid|' + base, 'interrupt at %s: %r' % (tr.where, e))
+        return
+    body = js.get('actions', [])[:-1]
+    if body != full[:len(body)]:
+        res.fail('cli', 'cli|not-a-prefix|' + base, 'Droop.main after an interrupt at %s: actions are not a prefix of the full record' % tr.where)
+
+
 def check(wrapper):
     res = Result()
     res.evals = 0
@@ -123,7 +190,7 @@ def check(wrapper):
     base = rule
     # position classes: before the header is filled / strictly inside a round
     bounds = [n for n, tag, _ in marks]
-    inside = prefix = 0
+    inside = prefix = ncli = 0
     for k in points:
         if k > total:
             continue
@@ -159,6 +226,11 @@ def check(wrapper):
             inside += 1
         if bad:
             break
+        if k % 7 == 3 and not wrapper.get('nocli'):
+            ncli += 1
+            check_cli(res, case, k, full, base)
+            if res.violations:
+                break
         if 'terminated prematurely' not in out['report']:
             res.fail('banner', 'banner|' + base, 'report of an interrupted count (event %d, %s) lacks the banner' % (k, where))
             break
@@ -189,6 +261,7 @@ def check(wrapper):
         res.tag('crash-inside-round')
     res.count('crash points before the header is filled', prefix)
     res.count('crash points strictly inside a round', inside)
+    res.count('crash points also delivered through Droop.main', ncli)
     res.nontrivial = bool(prefix or inside)
     return res
 
